@@ -10,6 +10,7 @@ import sys
 import traceback
 
 AWKWARD = ['a"b', "back\\slash", "new\nline", "tab\there", "é", "😀", "sp ace", "/", "{}", " x", "\x01", "'q'", ""]
+AWKWARD += ["trail\n", "\n", "cr\r", "x\u2028y", "x\u0085y", "x\u2029", "\x0b\x0c", "tab\t"]   # line-end-like characters, also at the very end
 LANGS = ["Python", "JavaScript", "C"]
 
 
@@ -26,13 +27,18 @@ def mk_measurements(rnd, n, name_pool=None):
     return out
 
 
-def build_codebase(files):
-    """files: list of (path, language, measurements) in insertion order"""
+def build_codebase(files, observe=False):
+    """files: list of (path, language, measurements) in insertion order; observe: read the whole-codebase statistics after every
+    insertion (reading must not change anything, and later insertions must show up in later reads)"""
     from codelimit.common.Codebase import Codebase
     from codelimit.common.SourceFileEntry import SourceFileEntry
     cb = Codebase("/root/dir")
     for path, lang, ms in files:
-        cb.add_file(SourceFileEntry(path, "chk" + str(len(path)), lang, sum(m.value for m in ms), ms))
+        cb.add_file(SourceFileEntry(path, "chk" + str(len(path)), lang, sum(m.value for m in ms), list(ms)))
+        if observe:
+            cb.all_measurements()
+            cb.total_loc()
+            cb.all_measurements_sorted_by_length_asc()
     cb.aggregate()
     return cb
 
@@ -52,8 +58,29 @@ def check_c07(files):
     fails = []
     try:
         cb = build_codebase(files)
+        cb2 = build_codebase(files, observe=True)
     except Exception as e:  # noqa
         return [("exception", f"{type(e).__name__}: {e}")]
+    # reading the whole-codebase statistics between insertions changes nothing and is never stale
+    want_all = [(m.unit_name, m.value) for _p, _l, ms in files for m in ms]
+    for label, c in (("", cb), (" (statistics read after every insertion)", cb2)):
+        got_all = sorted((m.unit_name, m.value) for m in c.all_measurements())
+        if got_all != sorted(want_all):
+            fails.append(("all-measurements", f"all_measurements{label}: {len(got_all)} measurements, expected {len(want_all)}"))
+        if c.total_loc() != sum(v for _n, v in want_all):
+            fails.append(("total-loc", f"total_loc{label}: {c.total_loc()} expected {sum(v for _n, v in want_all)}"))
+        for path, _lang, ms in files:
+            got_ms = [(m.unit_name, m.value) for m in c.files[path].measurements()]
+            if got_ms != [(m.unit_name, m.value) for m in ms] or c.files[path].loc != sum(m.value for m in ms):
+                fails.append(("file-measurements", f"{path}{label}: holds {len(got_ms)} measurements / loc {c.files[path].loc}, was given {len(ms)} "
+                              f"/ {sum(m.value for m in ms)}"))
+                break
+    try:
+        from codelimit.common.report.Report import Report
+        if Report(cb2).quality_profile() != profile_of([m for _p, _l, ms in files for m in ms]):
+            fails.append(("quality-profile", f"quality profile of the report {Report(cb2).quality_profile()} expected {profile_of([m for _p, _l, ms in files for m in ms])}"))
+    except Exception as e:  # noqa
+        fails.append(("exception", f"quality_profile: {type(e).__name__}: {e}"))
     from codelimit.common.ScanTotals import ScanTotals
     # per-language totals
     for lang in {f[1] for f in files}:
@@ -173,6 +200,19 @@ def check_c08(files, root, repo, version):
         return fails + [("exception-reading", f"{type(e).__name__}: {e}")]
     if r2.version != r.version:
         fails.append(("version-lost", f"{r2.version!r} vs {r.version!r}"))
+    try:
+        # reading the very same text again (same process) yields the same report; the compact form reads back the same as well
+        r3 = ReportReader.from_json(pretty)
+        r4 = ReportReader.from_json(compact)
+        for label, rx in (("second read of the same text", r3), ("compact form", r4)):
+            a = (rx.version, rx.uuid, rx.codebase.root, None if rx.repository is None else (rx.repository.owner, rx.repository.name, rx.repository.branch),
+                 list(rx.codebase.files))
+            b = (r2.version, r2.uuid, r2.codebase.root, None if r2.repository is None else (r2.repository.owner, r2.repository.name, r2.repository.branch),
+                 list(r2.codebase.files))
+            if a != b:
+                fails.append(("reread-differs", f"{label}: {a} vs first read {b}"))
+    except Exception as e:  # noqa
+        fails.append(("exception-reading", f"second read: {type(e).__name__}: {e}"))
     if r2.uuid != r.uuid or r2.codebase.root != root:
         fails.append(("uuid-or-root-lost", f"{r2.uuid!r} {r2.codebase.root!r}"))
     rp, rp2 = r.repository, r2.repository
@@ -495,7 +535,7 @@ def main():
         if rp["obligation"].startswith("C18") or (rp["obligation"].startswith("C02") and "previous" in c):
             pf = None if c.get("previous") is None else [(p, l, [Measurement(n, Location(a, b), Location(c2, d), v) for n, a, b, c2, d, v in ms]) for p, l, ms in c["previous"]]
             fs = check_c18(files, pf, c["full"], c["repo"])
-        elif rp["obligation"].startswith("C07"):
+        elif rp["obligation"].startswith("C07") or rp["obligation"].startswith("C05"):
             fs = check_c07(files)
         else:
             fs = check_c08(files, c["root"], c["repo"], c["version"])
@@ -511,7 +551,7 @@ def main():
     def ser(files):
         return [(p, l, [(m.unit_name, m.start.line, m.start.column, m.end.line, m.end.column, m.value) for m in ms]) for p, l, ms in files]
     try:
-        if prop == "C07":
+        if prop in ("C07", "C05"):
             for paths in path_sets(rnd, tier):
                 base = [(p, "Python" if p.endswith(".py") else "JavaScript", mk_measurements(rnd, rnd.randint(0, 3))) for p in paths]
                 orders = list(itertools.permutations(base)) if len(base) <= 3 else [base, base[::-1], rnd.sample(base, len(base))]
@@ -519,8 +559,11 @@ def main():
                     files = list(files)
                     evals += 1
                     distinct.add(tuple(f[0] for f in files))
-                    for kind, what in check_c07(files)[:2]:
-                        fails.append({"name": f"C07:{kind}", "what": what + f" | insertion order {[f[0] for f in files]}",
+                    found = check_c07(files)
+                    if prop == "C05":     # C05: a file's line total is the sum of its function lengths, whatever else is in the codebase
+                        found = [f_ for f_ in found if f_[0] in ("file-measurements", "total-loc", "all-measurements")]
+                    for kind, what in found[:2]:
+                        fails.append({"name": f"{prop}:{kind}", "what": what + f" | insertion order {[f[0] for f in files]}",
                                       "case": {"files": ser(files)}, "tags": []})
                 if len(fails) > 40:
                     break
